@@ -132,6 +132,7 @@ func (env *httpEnv) putBody(cc *charCase, entries []putEntry) []byte {
 func checkC11(c *Ctx) {
 	c11Events(c)
 	c11PermHelpers(c)
+	c11DuringCallback(c)
 	c.SetRule("one case = one characteristic (every zero-argument constructor of package characteristic, and custom characteristics with random " +
 		"subsets of {pr,pw,ev,hd,wr}) and a sequence of 1–8 operations: local updates, UpdateValueFromConnection, reads with get functions, and PUT " +
 		"/characteristics requests (value and/or ev entries) served by the real handler with a registered session; non-trivial = at least one step was refused by a " +
@@ -585,5 +586,50 @@ func c11PermHelpers(c *Ctx) {
 				c.Count(id, hi > 0, "stream:perm-helpers")
 			}
 		}
+	}
+}
+
+// c11DuringCallback: a remote write that arrives while the application's callbacks for another update of the same
+// characteristic are still running (the accessory updated a sensor value; the transport's own callback is writing events
+// to slow controllers). Forced with channels: the callback has been entered and has not returned. The permission check
+// is the same as at any other moment.
+func c11DuringCallback(c *Ctx) {
+	for i, mk := range []func() *characteristic.Characteristic{
+		func() *characteristic.Characteristic { return characteristic.NewCurrentTemperature().Characteristic },
+		func() *characteristic.Characteristic { return characteristic.NewMotionDetected().Characteristic },
+		func() *characteristic.Characteristic { return characteristic.NewContactSensorState().Characteristic },
+	} {
+		id := fmt.Sprintf("during-callback#%d", i)
+		if c.Skip(id) {
+			continue
+		}
+		ch := mk()
+		local := []interface{}{21.5, true, 1}[i]
+		remote := []interface{}{99.5, false, 0}[i]
+		entered, release := make(chan struct{}), make(chan struct{})
+		first := true
+		remoteCalls := 0
+		ch.OnValueUpdate(func(_ *characteristic.Characteristic, n, o interface{}) {
+			if first {
+				first = false
+				close(entered)
+				<-release
+			}
+		})
+		ch.OnValueUpdateFromConn(func(_ net.Conn, _ *characteristic.Characteristic, n, o interface{}) { remoteCalls++ })
+		done := make(chan struct{})
+		go func() { defer close(done); safely(func() { ch.UpdateValue(local) }) }()
+		<-entered
+		safely(func() { ch.UpdateValueFromConnection(remote, characteristic.TestConn) })
+		close(release)
+		<-done
+		in := map[string]interface{}{"perms": ch.Perms, "format": ch.Format, "application_sets": local, "controller_writes_while_the_callback_runs": remote}
+		if !sameGoValue(ch.Value, local) {
+			c.Violate("C11: remote write changed a characteristic without write permission", id, in, fmt.Sprint(local), fmt.Sprint(ch.Value))
+		}
+		if remoteCalls > 0 {
+			c.Violate("C11: remote write to a characteristic without write permission invoked a callback", id, in, "no callback", fmt.Sprintf("%d callbacks", remoteCalls))
+		}
+		c.Count(id, true, "stream:during-callback")
 	}
 }
